@@ -3,6 +3,7 @@ package c12
 
 import (
 	"fmt"
+	"strings"
 
 	"verifharness/fw"
 	"verifharness/sg"
@@ -12,8 +13,8 @@ import (
 
 type Case struct {
 	Mods    []*sg.Mod `json:"mods"`
-	Enabled []string  `json:"enabled"` // enabled features, "module:feature"
-	Clash string    `json:"clash,omitempty"` // a deliberate sibling name clash was inserted
+	Enabled []string  `json:"enabled"`         // enabled features, "module:feature"
+	Clash   string    `json:"clash,omitempty"` // a deliberate sibling name clash was inserted
 }
 
 type gen struct {
@@ -352,7 +353,43 @@ func genCase(t *rapid.T) Case {
 	if g.Chance(1, 6, "clash") {
 		m := mods[len(mods)-1]
 		top := m.Nodes[0]
-		switch g.Pick(3, "clashkind") {
+		switch g.Pick(5, "clashkind") {
+		case 3, 4:
+			// the clashing siblings come from different modules: an augment of an imported module's tree adds a
+			// name the target already has (3) or that another module's augment has already added there (4)
+			kind := g.Pick(2, "xclash")
+			for _, imp := range m.Imports {
+				for _, tm := range mods {
+					if tm.Name != imp.Mod || c.Clash != "" {
+						continue
+					}
+					ttop := tm.Nodes[0]
+					name := ""
+					if kind == 0 {
+						for _, k := range ttop.Kids {
+							if k.Kind == "leaf" || k.Kind == "container" || k.Kind == "list" || k.Kind == "leaf-list" {
+								name = k.Name
+								break
+							}
+						}
+					} else {
+						for _, om := range mods {
+							if om == m {
+								continue
+							}
+							for _, oa := range om.Augments {
+								if strings.HasSuffix(oa.Target, ":"+ttop.Name) && strings.Count(oa.Target, "/") == 1 && len(oa.IfFeatures) == 0 && len(oa.Kids) > 0 {
+									name = oa.Kids[0].Name
+								}
+							}
+						}
+					}
+					if name != "" {
+						m.Augments = append(m.Augments, &sg.Augment{Target: "/" + imp.Prefix + ":" + ttop.Name, Kids: []*sg.Node{{Kind: "leaf", Name: name, Type: &sg.TypeSpec{Name: "string"}}}})
+						c.Clash = "cross-module-augment-vs-existing:" + name
+					}
+				}
+			}
 		case 0:
 			// a local node with the name of a node the grouping introduces
 			if in, _, err := sg.Inline(mods); err == nil {
